@@ -104,11 +104,10 @@ func (v *wireView) inArmD(ins ssa.Instruction, k int64, depth int) bool {
 	if v.serve == nil || v.flow == nil {
 		return false
 	}
-	// the value set of the dispatch byte at ins is {k}
-	if s := v.flow.At(ins); !s.empty() {
-		return s == bsetOf(k)
-	}
-	return false
+	// ins can execute for code k, and only for codes that some test names (code shared by all requests, or by
+	// the requests no test names, belongs to no arm)
+	s := v.flow.At(ins)
+	return s.has(k) && s.subsetOf(v.flow.Mentioned)
 }
 
 // treeCalls: every call instruction of Tree(root).
